@@ -207,8 +207,12 @@ def formats(ctx):
                      ('pairwise', lambda M: pyamg.pairwise_solver(M, max_coarse=3)),
                      ('air', lambda M: pyamg.air_solver(M, max_coarse=3))):
         ref = None
-        for fmt in ('csr', 'csc', 'coo', 'lil', 'dia', 'bsr', 'dense'):
-            M = P.toarray() if fmt == 'dense' else P.asformat(fmt)
+        for fmt in ('csr', 'csc', 'coo', 'lil', 'dia', 'bsr', 'dense', 'csr-unsorted'):
+            if fmt == 'csr-unsorted':
+                from .. import gen as _gen
+                M = _gen.unsorted_copy(P, ctx.sub('unsorted-' + bname))       # CSR with shuffled column order in each row
+            else:
+                M = P.toarray() if fmt == 'dense' else P.asformat(fmt)
             keep = P.toarray().copy()
             Bk = B.copy()
             case = dict(builder=bname, format=fmt)
@@ -230,6 +234,10 @@ def formats(ctx):
             dense = [hier.dense_of(L.A) for L in ml.levels]
             if ref is None:
                 ref = (sizes, dense, fmt)
+                continue
+            if fmt == 'csr-unsorted':
+                # aggregation visits neighbours in storage order, so another (equally valid) hierarchy may result: only
+                # setup purity is claimed for this storage variant
                 continue
             if sizes != ref[0]:
                 ctx.fail('format-dependent-hierarchy/' + bname, '%s gives level sizes %s, %s gives %s' % (fmt, sizes, ref[2], ref[0]), case)
